@@ -110,7 +110,10 @@ def main():
                                                    density=24 if q else 4, shards=[chk.seed % 16] if q else [0, 5, 10])
     fo2, fj2 = games.run_movegen_families(chk, ["promo", "promopin"], nshards=8,     # split by pawn file: 8 shards
                                           density=24 if q else 4, shards=[chk.seed % 8] if q else [0, 3, 6])
-    fam_out, fam_jobs = fam_out + fo2, fam_jobs + fj2
+    # every legal move is a capture (no quiet move in the list at all), winning, equal and losing captures mixed
+    fo3, fj3 = games.run_movegen_families(chk, ["noquiet"], nshards=8, density=4 if q else 1,
+                                          shards=[chk.seed % 8, (chk.seed + 3) % 8] if q else [0, 2, 4, 6])
+    fam_out, fam_jobs = fam_out + fo2 + fo3, fam_jobs + fj2 + fj3
     fam_rows = []
     for (o, pth), job in zip(fam_out, fam_jobs):
         rows = vlib.read_ndjson(pth)
